@@ -26,7 +26,8 @@ chk('C15', 'model_checking',
     '<=2 processes, bounded hold counts) one real critical section is executed under CrossHair/z3 and the invariant, '
     'reader-writer exclusion, refusal rules and the no-lost-wake-up clause are asserted; plus a bounded 2-request '
     'history of the composed path_lock. One step from an arbitrary invariant state covers histories of any length '
-    'within the bounds.',
+    'within the bounds; a step that leaves its critical section and enters another one is interleaved with a complete '
+    'rival request in between (rely/havoc at the gap; descriptor-pool race re-enacted with real threads and lockf).',
     'Trusted: contract models of Condition(RLock), Lock, POSIX lockf for two processes, os.open/close; the invariant; '
     'well-nested acquisitions. Counterexamples are re-enacted with real threads / real lockf / a real second process.',
     'symbolic execution (CrossHair+z3) of real lock code from symbolic invariant states; inductive step',
@@ -87,8 +88,10 @@ chk('C02', 'translation_validation',
     'models, length 2 from two, 22-op alphabet) pharmpy generates code; the reference semantics interprets the '
     'GENERATED code and z3 decides for all numeric inputs that it denotes the in-memory model (statements, dA/dt under '
     'the numbering the code defines, lag/bioavailability, dose compartment, parameters, covariance structure); the '
-    'written-and-re-read model is compared with the in-memory one the same way.',
-    'Trusted: lib/nmref.py; positional THETA/ETA/EPS correspondence; write_model/read_model run concretely in a temp '
+    'written-and-re-read model is compared with the in-memory one the same way, and the dataset read back through the '
+    'generated $DATA/$INPUT equals the in-memory dataset; start models include two that were written to and read from '
+    'disk with an explicit CMT column, and histories that only renumber etas.',
+    'Trusted: lib/nmref.py (incl. $ABBR REPLACE, SAME(m)); positional THETA/ETA/EPS correspondence; write_model/read_model run concretely in a temp '
     'directory. Histories are enumerated, numeric inputs solver-decided. Known code-generation defects are listed in '
     'known_findings.json by (history pattern, obligation).',
     'z3 equivalence between generated NM-TRAN code (reference semantics) and the model IR; read-back equivalence',
@@ -174,7 +177,9 @@ chk('C09', 'translation_validation',
     'the dataset by the harness; neutrality at the reference covariate value / eta = 0 / reference weight; IIV forms '
     'add/prop/exp/log as documented; eta transformations neutral at eta = 0; error-model setters give Y = f + noise(f, '
     'eps) of the named model and leave f unchanged; KA = 1/MAT, D1 = 2 MAT, transit rates n/MDT or (n+1)/MDT; removing '
-    'an extension restores the previous model function.',
+    'an extension restores the previous model function. Also: each transformed eta equals its documented transformation '
+    '(one call / separate calls), BLQ transformation composed with the power error model (both orders), sibling models '
+    'sharing one data file with different filters, categorical covariates varying within individuals.',
     'Trusted: templates written from the docstrings; lib/semeq.py; uninterpreted exp/log/pow with sound axioms and '
     'numeric replay. Also: add_iov neutral at eta 0 / remove_iov restores, IIV on RUV template, time-varying error '
     'model, BLQ M3/M4 likelihood and SD, remove_iiv on existing / transformed etas, transit-count sequences. '
@@ -191,7 +196,9 @@ chk('C03', 'other',
     'of 3, also statements owning two parse-tree nodes), AttrTree edit helpers (<=3/4 children), record-level edits of '
     'streams with duplicate records; and at model level: control streams assembled from one variant per record slot '
     '(10 slots, 2-4 variants, table-indexed) are read by the real Model.parse_model_from_string and code(update(M)) == T, '
-    'and after one edit (theta init, description, sigma init, a $PK statement) every unrelated record is preserved in order.',
+    'and after one edit (theta init, description, sigma init, a $PK statement, the model name, the estimation method) every '
+    'unrelated record is preserved in order, the other lines of the edited $PK record are kept verbatim, comments of '
+    're-written records survive exactly; a statement appended at an unterminated end of the stream stays on its own line.',
     'Partial: a grammar defect that needs more than 2-3 characters to show is NOT detected; model-level texts are the '
     'stated slot table (solver enumerates it, real code runs concretely per entry); '
     'real statement printing and AbbreviatedRecordParser are outside. Trusted: lark.Token stand-in, '
@@ -208,10 +215,13 @@ chk('C04', 'other',
     'rvs_from_blocks numbering incl. SAME (<=3 blocks), a z3 integer lemma for triangular_root; and the REAL '
     'ThetaRecord.update/remove and OmegaRecord.update/remove on tables of 15 (24) $THETA and 21 (33) $OMEGA/$SIGMA record '
     'texts x edits: the independent reader nmref.parse_theta/parse_omega re-reads exactly the requested parameters, '
-    'pharmpy re-reads the same, a no-op edit is byte-identical, only the changed tokens are respelled.',
+    'pharmpy re-reads the same, a no-op edit is byte-identical, only the changed tokens are respelled; at model level the '
+    'parameters (by NAME) and random variables re-read from the generated code equal the in-memory ones after 17 '
+    'public-API edits over the record-layout table, over four etas in multi-value records and over five etas (diagonal '
+    'record + BLOCK(3), members split off).',
     '$ABBR and IOV/SAME updates and the composition update_thetas -> real records at model level (beyond C02/C03) are '
     'outside. Record texts are table-indexed (solver enumerates, real code runs concretely per entry). Reordering kept '
-    'thetas/etas is outside the edit alphabet of the property. Eight deviation regions are known findings.',
+    'thetas/etas is outside the edit alphabet of the property. Nine deviation regions are known findings.',
     'symbolic execution (CrossHair+z3) of real diff / record-update bookkeeping over contract stubs; z3 lemma',
     'DESIGN.md section 3 C04', 'E1')
 
@@ -236,7 +246,8 @@ chk('C17', 'other',
     'every subset of context-taking tasks, as_dask_dict evaluated by a small evaluator of the dask graph specification '
     'equals a topological evaluation of the declared graph (each task once, statics then predecessors in entry order); '
     'add_task, insert_workflow (N:N, N:1, 1:N; N:M refused), replace_task and + keep exactly the declared tasks/edges; '
-    'task keys of two graphs are disjoint; value-equal tasks (same name, function, input) stay distinct tasks.',
+    'task keys of two graphs are disjoint; value-equal tasks (same name, function, input) stay distinct tasks; builder '
+    'histories with read-only observations between edits (add, observe, replace a task, gather all current sinks).',
     'Trusted: the dask graph-spec evaluator, deterministic uuid stand-in, networkx dict-factory rebinding (CrossHair), '
     'dispatcher stub; dask schedulers are trusted (counterexamples are replayed on dask.threaded.get). More tasks than '
     'the bound and tuple/list/Model static inputs are outside.',
@@ -248,7 +259,8 @@ chk('C18', 'other',
     '+, -, ==, contain_subset and least_number_of_transformations agree with set operations on the expanded options; '
     'partitions / subsets are exact for all distinct element values n<=4 (5); modelsearch exhaustive / stepwise / '
     'reduced_stepwise and the iivsearch brute-force builders enumerate exactly the documented candidates, once each with '
-    'unique names, for every subset of a 6 (8)-key universe; stringify(parse(.)) is the identity on the table statements.',
+    'unique names, for every subset of a 6 (8)-key universe and of a universe whose base model has lag time / first-order '
+    'absorption (LAGTIME(OFF), INST as features); stringify(parse(.)) is the identity on the table statements.',
     'Object side, plus LET references in COVARIATE statements (table of statement shapes); MFL text as arbitrary input, '
     'expand/@built-in refs and runtime IIV strategies are outside. Operand options '
     'are table-indexed (one solver path per entry, concrete execution after indexing). 12 deviation regions are separate '
